@@ -208,6 +208,14 @@ Theorem C18_dihedral_R_is_textbook : forall p1 p2 p3 p4 : vec3 RK,
              /\ is_arg (tb_dih_y RK p1 p2 p3 p4) (tb_dih_x RK p1 p2 p3 p4) th /\ - PI <= th <= PI.
 Proof. exact dihedral_R_is_arg. Qed.
 
+(** ... and it is the ONLY such angle in (-pi, pi]: whatever angle th' in (-pi, pi] is an argument of the
+    textbook pair, that is what compute_dihedral returns *)
+Theorem C18_dihedral_R_unique : forall (p1 p2 p3 p4 : vec3 RK) (th' : R),
+  p3 <> p2 -> (tb_dih_x RK p1 p2 p3 p4 <> 0 \/ tb_dih_y RK p1 p2 p3 p4 <> 0) ->
+  is_arg (tb_dih_y RK p1 p2 p3 p4) (tb_dih_x RK p1 p2 p3 p4) th' -> - PI < th' <= PI ->
+  compute_dihedral RK (@A2 RK [p1]) (@A2 RK [p2]) (@A2 RK [p3]) (@A2 RK [p4]) false = Ok (@A1 RK [th']).
+Proof. exact dihedral_R_unique. Qed.
+
 Theorem C18_dihedral_R_positive_multiple : forall p1 p2 p3 p4 : vec3 RK,
   p3 <> p2 ->
   exists y x k,
@@ -292,6 +300,7 @@ Print Assumptions C18_angle_R_range.
 Print Assumptions C18_distance_R.
 Print Assumptions C18_atan2_spec.
 Print Assumptions C18_dihedral_R_is_textbook.
+Print Assumptions C18_dihedral_R_unique.
 Print Assumptions C18_dihedral_R_positive_multiple.
 Print Assumptions C18_dihedral_R_reflection.
 Print Assumptions C18_connectivity_R_squared.
